@@ -59,8 +59,14 @@
 #include <pthread.h>
 
 #ifdef VERIF_CBMC
-/* CBMC 6.11's library model of memchr returned a pointer that is not the first occurrence in a probe
+/* C-standard definitions of the string functions are used instead of CBMC 6.11's library models: in probes the
+ * models of memchr and strlen returned values that the native run of the same harness contradicts.
+ * CBMC 6.11's library model of memchr returned a pointer that is not the first occurrence in a probe
  * (native run disagrees); the C standard definition is used instead */
+size_t strlen(const char* s) { size_t n = 0; while (s[n] != 0) n++; return n; }
+char* strcpy(char* d, const char* s) { size_t i = 0; for (;; i++) { d[i] = s[i]; if (s[i] == 0) break; } return d; }
+char* strcat(char* d, const char* s) { size_t n = 0, i = 0; while (d[n] != 0) n++; for (;; i++) { d[n + i] = s[i]; if (s[i] == 0) break; } return d; }
+int strcmp(const char* a, const char* b) { size_t i = 0; for (;; i++) { unsigned char x = (unsigned char)a[i], y = (unsigned char)b[i]; if (x != y) return x < y ? -1 : 1; if (x == 0) return 0; } }
 void* memchr(const void* s, int c, size_t n) {
     const unsigned char* p = (const unsigned char*)s; size_t i;
     for (i = 0; i < n; i++) { if (p[i] == (unsigned char)c) return (void*)(p + i); }
@@ -171,16 +177,30 @@ long vh_random(void) { ND(long, ev_rnd); g_ev_random_calls++; return ev_rnd; }
 #define EV_DIR_MAX 3
 typedef struct vh_dirstream { int pos; int open; } vh_dirstream;
 static vh_dirstream g_ev_dirstream;          /* the one DIR object the model hands out */
-static struct dirent g_ev_dirents[EV_DIR_MAX]; static int g_ev_dirent_count = 0;
+/* entries are kept in small separate arrays and copied into ONE static struct dirent by constant index (POSIX lets readdir
+ * return storage that the next call overwrites); a symbolic index into an array of 280-byte struct dirent made CBMC 6.11
+ * evaluate the same name differently through a pointer and through the array expression (native run disagreed) */
+#define EV_NAMEMAX 3
+static char g_ev_names[EV_DIR_MAX][EV_NAMEMAX + 1]; static unsigned long g_ev_inos[EV_DIR_MAX]; static unsigned char g_ev_types[EV_DIR_MAX];
+static struct dirent g_ev_cur_dirent; static int g_ev_dirent_count = 0;
+static void ev_fill_dirent(const char* nm, unsigned long ino, unsigned char ty) {
+    int i; g_ev_cur_dirent.d_ino = ino; g_ev_cur_dirent.d_off = 0; g_ev_cur_dirent.d_reclen = 0; g_ev_cur_dirent.d_type = ty;
+    for (i = 0; i <= EV_NAMEMAX; i++) g_ev_cur_dirent.d_name[i] = nm[i];
+}
 DIR* vh_opendir(const char* path) {
     ev_note(EV_opendir); ev_copy_path(g_ev_path, path);
     { ND(int, ev_fail); if (ev_fail) { errno = ENOENT; return 0; } g_ev_dirstream.pos = 0; g_ev_dirstream.open = 1; return (DIR*)&g_ev_dirstream; }
 }
 struct dirent* vh_readdir(DIR* d) {
-    vh_dirstream* s = (vh_dirstream*)d;
+    vh_dirstream* s = (vh_dirstream*)d; int p;
     ev_note(EV_readdir); g_ev_dir = d;
-    if (s->pos < 0 || s->pos >= g_ev_dirent_count) return 0;
-    return &g_ev_dirents[s->pos++];
+    p = s->pos;
+    if (p < 0 || p >= g_ev_dirent_count) return 0;
+    if (p == 0) ev_fill_dirent(g_ev_names[0], g_ev_inos[0], g_ev_types[0]);
+    else if (p == 1) ev_fill_dirent(g_ev_names[1], g_ev_inos[1], g_ev_types[1]);
+    else ev_fill_dirent(g_ev_names[2], g_ev_inos[2], g_ev_types[2]);
+    s->pos = p + 1;
+    return &g_ev_cur_dirent;
 }
 long vh_telldir(DIR* d) { ev_note(EV_telldir); return (long)((vh_dirstream*)d)->pos; }
 void vh_seekdir(DIR* d, long loc) { ev_note(EV_seekdir); ((vh_dirstream*)d)->pos = (int)loc; }
